@@ -34,11 +34,24 @@ ASSUMES = ["nesting depth <= 3", "settings domain: builtin backends, prefer/requ
 OUTSIDE = ["nesting depth 4", "true multi-thread interleavings (threading.local is trusted)", "external backends"]
 
 BACKENDS = [None, "threading", "loky", "multiprocessing", "sequential"]   # None = unset
+# the other documented ways of naming a backend explicitly in Parallel(backend=...): an instance, a multiprocessing context
+EXPLICIT = BACKENDS + ["inst:threading", "inst:multiprocessing", "inst:loky", "mpctx"]
 PREFER = ["unset", None, "threads", "processes"]
 REQUIRE = ["unset", None, "sharedmem"]
-SHAREDMEM = {"threading", "sequential"}
+SHAREDMEM = {"threading", "sequential", "inst:threading"}
 CLS = {"threading": "ThreadingBackend", "loky": "LokyBackend", "multiprocessing": "MultiprocessingBackend",
-       "sequential": "SequentialBackend"}
+       "sequential": "SequentialBackend", "inst:threading": "ThreadingBackend",
+       "inst:multiprocessing": "MultiprocessingBackend", "inst:loky": "LokyBackend", "mpctx": "MultiprocessingBackend"}
+
+
+def _explicit(name):
+    import multiprocessing as mp
+    import joblib._parallel_backends as pb
+    if name == "mpctx":
+        return mp.get_context("fork")
+    if name.startswith("inst:"):
+        return getattr(pb, CLS[name])()
+    return name
 
 
 class _Boom(Exception):
@@ -190,13 +203,13 @@ def _resolve_case(levels_sel, exp_sel, factory_name):
         levels.append(kw)
     eb, ep, er = exp_sel
     kw = {}
-    if BACKENDS[eb] is not None:
-        kw["backend"] = BACKENDS[eb]
+    if EXPLICIT[eb] is not None:
+        kw["backend"] = _explicit(EXPLICIT[eb])
     if PREFER[ep] != "unset":
         kw["prefer"] = PREFER[ep]
     if REQUIRE[er] != "unset":
         kw["require"] = REQUIRE[er]
-    want = _model(ctx_b, _eff(ctx_p, PREFER[ep]), _eff(ctx_r, REQUIRE[er]), BACKENDS[eb])
+    want = _model(ctx_b, _eff(ctx_p, PREFER[ep]), _eff(ctx_r, REQUIRE[er]), EXPLICIT[eb])
     log = []
     factory = getattr(jp, factory_name)
     try:
@@ -218,7 +231,7 @@ def _resolve_case(levels_sel, exp_sel, factory_name):
 def ob_resolve(b: int, p: int, r: int, eb: int, ep: int, er: int) -> bool:
     """
     pre: 0 <= p <= 3 and 0 <= r <= 2
-    pre: 0 <= eb <= 4 and 0 <= ep <= 3 and 0 <= er <= 2
+    pre: 0 <= eb <= 8 and 0 <= ep <= 3 and 0 <= er <= 2
     post: _
     """
     H.enter()
@@ -228,7 +241,7 @@ def ob_resolve(b: int, p: int, r: int, eb: int, ep: int, er: int) -> bool:
     if factory == "parallel_backend":
         H.assume(p == 0 and r == 0)
     sel = (cb, H.select(p, 0, 3), H.select(r, 0, 2))
-    ex = (H.select(eb, 0, 4), H.select(ep, 0, 3), H.select(er, 0, 2))
+    ex = (H.select(eb, 0, 8), H.select(ep, 0, 3), H.select(er, 0, 2))
     with H.native():
         return H.verdict(_resolve_case([sel], ex, factory))
 
@@ -314,11 +327,11 @@ def obligations(tier, seed):
     for cb in range(5):
         obs.append({"name": "resolve/ctx_%s" % (BACKENDS[cb] or "unset"), "fn": "ob_resolve", "mode": "S",
                     "params": {"ctx_backend": cb}, "timeout": 300,
-                    "bounds": "context prefer x require (12) x explicit backend x prefer x require (60)"})
+                    "bounds": "context prefer x require (12) x explicit backend (name, instance or multiprocessing context) x prefer x require (108)"})
     for cb in range(1, 5):
         obs.append({"name": "api_parallel_backend/ctx_%s" % BACKENDS[cb], "fn": "ob_resolve", "mode": "S",
                     "params": {"ctx_backend": cb, "factory": "parallel_backend"}, "timeout": 200,
-                    "bounds": "legacy parallel_backend(backend) x explicit backend x prefer x require (60)"})
+                    "bounds": "legacy parallel_backend(backend) x explicit backend (name, instance or multiprocessing context) x prefer x require (108)"})
     obs.append({"name": "compose", "fn": "ob_compose", "mode": "S", "timeout": 600,
                 "bounds": "two nested contexts + explicit over backend{unset,threading,loky} x prefer{unset,threads} "
                           "x require{unset,sharedmem}: 12^3 = 1728 cases"})
